@@ -26,6 +26,7 @@ application schema and its type names are what they were before the history.
 """
 
 import hashlib
+import io
 import json
 import urllib.parse
 
@@ -138,6 +139,12 @@ def schema_xml(plan):
     out.append('  <key name="topv" datatype="integer" default="0"/>')
     for s in plan["slots"]["$top"]:
         out.append(_slot_xml(s))
+    # a section whose key has a datatype of the application that loads
+    # another (small) configuration while this one is being read
+    out.append('  <sectiontype name="zznest">')
+    out.append('    <key name="nk" datatype="zcsim.simdt.nested"/>')
+    out.append('  </sectiontype>')
+    out.append('  <multisection type="zznest" name="*" attribute="zznests"/>')
     out.append("</schema>")
     return "\n".join(out) + "\n"
 
@@ -183,6 +190,8 @@ def render(steps, url, store):
                 elif st.get("form") == "long-v":
                     lines.append("  v 3")
                 lines.append("</%s>" % st["type"])
+        elif op == "nested":
+            lines.extend(["<zznest>", "  nk go", "</zznest>"])
         elif op == "include":
             target = urllib.parse.urljoin(url, st["ref"])
             sub = render(st["steps"], target, store)
@@ -296,6 +305,10 @@ class Model:
                 self.do_import(st["pkg"])
             elif op == "include":
                 self.walk(st["steps"], cont)
+            elif op == "nested":
+                # (another load runs in between: it has a vocabulary of its
+                # own and leaves this load's alone)
+                pass
             else:
                 self.n_headers += 1
                 t = st["type"].lower()
@@ -545,7 +558,8 @@ def generate(rng, tier, index):
     # same slots" is judged there)
     # how the generated packages are NAMED: any name the import system
     # accepts and that provides a component is a component package
-    scheme = rng.choice(["plain", "plain", "plain", "non-ascii", "hyphen"])
+    scheme = rng.choice(["plain", "plain", "plain", "non-ascii", "hyphen",
+                         "dotted"])
     plan["reuse_loader"] = rng.random() < 0.25 \
         and "zcsim_ptw" not in plan["components"]
     # (with the twin package a loader that keeps an earlier load's import
@@ -553,10 +567,18 @@ def generate(rng, tier, index):
     if scheme != "plain":
         text = json.dumps(plan)
         for old_ in ("zcsim_p0", "zcsim_p1", "zcsim_p2", "zcsim_ptw"):
-            new_ = old_.replace("zcsim_p", "zcsim_p\u00e9" if scheme ==
-                                "non-ascii" else "zcsim-p")
+            new_ = old_.replace("zcsim_p", {
+                "non-ascii": "zcsim_p\u00e9", "hyphen": "zcsim-p",
+                # sub-packages of one package whose __init__ binds their
+                # names to something else (from .p0 import p0)
+                "dotted": "zcsim_par.p"}[scheme])
             text = text.replace(old_, json.dumps(new_)[1:-1])
         plan = json.loads(text)
+        if scheme == "dotted":
+            plan["packages"]["zcsim_par"] = {
+                "is_package": True,
+                "shadow": sorted(k.split(".", 1)[1] for k in plan["packages"]
+                                 if k.startswith("zcsim_par."))}
     return plan
 
 
@@ -695,6 +717,8 @@ def _gen_load(rng, plan, pkgs, all_types):
     if pkgs and rng.random() < 0.2:
         faults[rng.choice(pkgs)] = rng.choice(["pkg-import-error",
                                                "pkg-get-data-eio"])
+    if rng.random() < 0.12:
+        steps.insert(rng.randint(0, len(steps)), {"op": "nested"})
     ld = {"steps": steps, "top": rng.choice(TOPS), "pkg_faults": faults}
     if rng.random() < 0.3:
         # an override that has nothing to do with sections or imports: which
@@ -858,6 +882,18 @@ def execute(plan):
             import ZConfig.loader as _L
             reuse = _L.ConfigLoader(schema)
             probe("one-loader-for-the-history")
+
+        def nested_hook(_value):
+            probe("load-started-inside-a-load")
+            w.nested_hook = None
+            try:
+                if reuse is not None:
+                    reuse.loadFile(io.StringIO("topv 1\n"))
+                else:
+                    ZConfig.loadConfigFile(schema, io.StringIO("topv 1\n"))
+            finally:
+                w.nested_hook = nested_hook
+        w.nested_hook = nested_hook
         for li, ld in enumerate(plan["loads"]):
             store = render_all(ld["steps"], ld["top"])
             st = dict(store)
